@@ -752,39 +752,29 @@ class Fetcher:
         This method makes a single API request for all titles in the batch,
         then processes the results and stores them in the database.
         """
-        # Make the API request for all titles in the batch
         if title is None:
-            title_to_authors = api.get_contributors(self.titles_pending_contributor_lookup[api])
+            titles = list(self.titles_pending_contributor_lookup[api])
+            self.titles_pending_contributor_lookup[api] = []
         else:
-            title_to_authors = api.get_contributors([title])
+            titles = [title]
+        if not titles:
+            return
 
-        # Process the results for each title
-        authors_dict = {}
-        title: str
-        for title in self.titles_pending_contributor_lookup[api]:
-            # Skip if the title is not in the results (e.g., if it was redirected)
-            if title not in title_to_authors:
-                continue
+        # Make the API request for all titles in the batch
+        title_to_authors = api.get_contributors(titles)
 
-            # Get the InspectAuthors object for this title
-            inspect_authors = title_to_authors[title]
-
-            # Get the authors for this title
+        # Store what the wiki reports.  The result is keyed by the titles the wiki resolved the
+        # requested ones to (redirects are followed); a single requested title is described by
+        # whatever it resolved to, so it is stored under the requested title as well.
+        for resolved_title, inspect_authors in title_to_authors.items():
             authors = inspect_authors.get_authors()
-
-            # Use the mapped title if available (for image pages)
-            db_title = title
-            if title in self.title_mapping:
-                db_title = self.title_mapping[title]
-
-            # Store the authors in the database
-            self.fsout.set_db_key("authors", db_title, authors)
-
-            # Store the authors in a dictionary for future use
-            authors_dict[title] = authors
-
-        # Clear the batch
-        self.authors_batch = []
+            db_titles = {resolved_title}
+            if len(titles) == 1:
+                db_titles.add(titles[0])
+            for db_title in db_titles:
+                # Use the mapped title if available (for image pages)
+                db_title = self.title_mapping.get(db_title, db_title)
+                self.fsout.set_db_key("authors", db_title, authors)
 
     def report(self):
         query_count = self.api.qccount
@@ -1008,11 +998,11 @@ class Fetcher:
         _, partial = title.split(":", 1)
         local_title = f"{local_nsname}:{partial}"
 
+        # Map the original title to the local title (used when the result is stored)
+        self.title_mapping[title] = local_title
+
         # Add the title to the batch
         self._add_to_titles_pending_contributor_lookup(title, api)
-
-        # Map the original title to the local title for later use
-        self.title_mapping[title] = local_title
 
     def _get_mwapi_for_path(self, path):
         urls = mwapi.guess_api_urls(path)
